@@ -160,10 +160,17 @@ pub fn run(_params: &Params) {
   for step in 0..writes {
     clock.advance(900);
     clock.enter(0);
-    let li = ctx::choose(models.len());
+    // step kinds: one write; several writes inside one update() closure; re-assignment of the status of a credential
+    // that already has one (the issuer moves it to another entry)
+    let special = ctx::weighted(&[8, 2, 2]);
+    let reassign_k: Option<usize> = if special == 2 && !issued.is_empty() { Some(ctx::choose(issued.len())) } else { None };
+    let li = match reassign_k {
+      Some(k) => issued[k].1,
+      None => ctx::choose(models.len()),
+    };
     // index: sequential allocation (adjacent), an index used before, a random one, or out of range
-    let kind = ctx::weighted(&[5, 4, 2, 1]);
-    let index = match kind {
+    let kind = if reassign_k.is_some() { ctx::weighted(&[1, 4, 2, 3]) } else { ctx::weighted(&[5, 4, 2, 1]) };
+    let index: usize = match kind {
       0 => {
         let v = next_index[li];
         next_index[li] += 1;
@@ -180,8 +187,86 @@ pub fn run(_params: &Params) {
       2 => ctx::choose(models[li].len),
       _ => models[li].len + ctx::choose(9),
     };
+    if special == 1 {
+      // ---- several writes in one update(): they take effect in order (the last write to an entry wins), all or none
+      let mut ws: Vec<(usize, bool)> = Vec::new();
+      for k in 0..2 + ctx::choose(2) {
+        let idx = if k == 0 || ctx::choose(4) != 0 || index >= models[li].len { index } else { ctx::choose(models[li].len) };
+        ws.push((idx, ctx::choose(2) == 0));
+      }
+      let before_json = serde_json::to_string(&creds[li]).unwrap();
+      let m = &mut models[li];
+      let mut tmp = m.set.clone();
+      let (mut definite, mut ambiguous) = (false, false);
+      for (i, v) in &ws {
+        if *i >= m.len {
+          definite = true;
+          break;
+        }
+        if m.purpose == StatusPurpose::Revocation && !*v && tmp.contains(i) {
+          if m.set.contains(i) {
+            definite = true; // clearing an entry that was revoked before this update
+            break;
+          }
+          ambiguous = true; // clearing an entry set earlier in this same, uncommitted update: either answer is fine
+          tmp.remove(i);
+        } else if *v {
+          tmp.insert(*i);
+        } else {
+          tmp.remove(i);
+        }
+      }
+      let ws2 = ws.clone();
+      let r = ctx::catch(|| {
+        creds[li].update(|l| {
+          for (i, v) in &ws2 {
+            l.set_entry(*i, *v)?;
+          }
+          Ok(())
+        })
+      });
+      ctx::stat("probe.multi_write_update");
+      ctx::sched("mw", ws.iter().fold(0u64, |a, (i, v)| a.wrapping_mul(31).wrapping_add((*i as u64) << 1 | *v as u64)));
+      ctx::trace(format!("step {step}: list{li}({:?}) update with writes {ws:?} -> {}", m.purpose, match &r { Ok(Ok(())) => "Ok", Ok(Err(_)) => "Err", Err(_) => "panic" }));
+      match r {
+        Err(p) => {
+          ctx::violation("C12", "C12.out_of_range_is_error", "multi-write/panic", format!("update with writes {ws:?} panicked: {p}"));
+          return;
+        }
+        Ok(Ok(())) => {
+          if definite {
+            ctx::violation(
+              "C12",
+              if ws.iter().any(|(i, _)| *i >= m.len) { "C12.out_of_range_is_error" } else { "C12.revocation_is_one_way" },
+              "multi-write/refusable-write-accepted",
+              format!("update with writes {ws:?} on a {}-entry {:?} list succeeded", m.len, m.purpose),
+            );
+          }
+          if m.set != tmp {
+            nontrivial = true;
+          }
+          m.set = tmp;
+        }
+        Ok(Err(e)) => {
+          if !definite && !ambiguous {
+            ctx::violation(
+              "C12",
+              "C12.independent_bits",
+              format!("multi-write/legal-writes-refused/{}", <&'static str>::from(&e)),
+              format!("update with writes {ws:?} on a {}-entry {:?} list failed: {e}", m.len, m.purpose),
+            );
+          }
+          if serde_json::to_string(&creds[li]).unwrap() != before_json {
+            ctx::violation("C12", "C12.independent_bits", "multi-write/refused-but-changed", "a refused update changed the status list credential");
+          }
+        }
+      }
+      let around: Vec<usize> = ws.iter().map(|(i, _)| (*i).min(models[li].len - 1)).collect();
+      check_list("after-multi-write", &creds[li], &models[li], &around);
+    } else {
     let value = ctx::choose(3) != 0;
-    let api = ctx::choose(3);
+    let api = if reassign_k.is_some() { 0 } else { ctx::choose(3) };
+    let mut credential_changed_by_refused_call = false;
     let before_json = serde_json::to_string(&creds[li]).unwrap();
     let m = &mut models[li];
     let m_len = m.len;
@@ -200,9 +285,19 @@ pub fn run(_params: &Params) {
           "credentialSubject": {"id": format!("did:sim:subject{step}")}
         }))
         .expect("credential");
+        if let Some(k) = reassign_k {
+          subject_cred = issued[k].0.clone();
+          ctx::stat("probe.status_reassigned");
+        }
+        let before_cred = serde_json::to_value(&subject_cred).unwrap();
         let r = creds[li].set_credential_status(&mut subject_cred, index, value);
         if r.is_ok() {
-          issued.push((subject_cred, li, index));
+          match reassign_k {
+            Some(k) => issued[k] = (subject_cred, li, index),
+            None => issued.push((subject_cred, li, index)),
+          }
+        } else if serde_json::to_value(&subject_cred).unwrap() != before_cred {
+          credential_changed_by_refused_call = true;
         }
         r.map(|_| ())
       }
@@ -280,7 +375,17 @@ pub fn run(_params: &Params) {
         if serde_json::to_string(&creds[li]).unwrap() != before_json {
           ctx::violation("C12", "C12.independent_bits", "write/refused-but-changed", "a refused write changed the status list credential");
         }
+        // ... and the credential keeps the entry it had: its reported status must stay that of ITS entry
+        if credential_changed_by_refused_call {
+          ctx::violation(
+            "C12",
+            "C12.reported_status",
+            "assignment/refused-but-credential-status-changed",
+            format!("set_credential_status({index},{value}) was refused but the credential's status entry now differs from the one it was issued with"),
+          );
+        }
       }
+    }
     }
     // I12.1 read-back of the touched byte and its neighbours; encode/decode identity of the served form
     check_list("after-write", &creds[li], &models[li], &[index.min(models[li].len - 1)]);
